@@ -526,6 +526,8 @@ pub struct Exec<'a> {
     pub acc_fd_lists: std::collections::VecDeque<Vec<RawFd>>,
     pub acc_100: Vec<Version>,
     pub defer_streak: usize,
+    /// canonical (segmentation independent) observation: requests, interim responses, errors
+    pub canon: [Vec<u8>; 3],
 }
 
 impl<'a> Exec<'a> {
@@ -554,6 +556,7 @@ impl<'a> Exec<'a> {
             acc_fd_lists: Default::default(),
             acc_100: vec![],
             defer_streak: 0,
+            canon: [vec![], vec![], vec![]],
         };
         if let Some(s) = &cfg.stream {
             e.queue = s.clone();
@@ -930,18 +933,23 @@ impl<'a> Exec<'a> {
         for r in got {
             self.obs_log.extend_from_slice(show_req(r).as_bytes());
             self.obs_log.push(b';');
+            self.canon[0].extend_from_slice(show_req(r).as_bytes());
+            self.canon[0].push(b';');
             self.impl_facts |= 1 << 0;
             if r.body.is_some() {
                 self.impl_facts |= 1 << 1;
             }
         }
         for r in &o.interim {
+            self.canon[1].extend_from_slice(format!("{} {};", r.version, r.code).as_bytes());
             self.obs_log.extend_from_slice(format!("{} {};", r.version, r.code).as_bytes());
             self.impl_facts |= 1 << 8;
         }
         if rs != "Ok" {
             self.obs_log.extend_from_slice(rs.as_bytes());
             self.obs_log.push(b';');
+            self.canon[2].extend_from_slice(rs.as_bytes());
+            self.canon[2].push(b';');
         }
         if let Ok(Err(ConnectionError::ParseError(e))) = &o.result {
             self.impl_facts |= match classify(e).0 {
@@ -1242,7 +1250,98 @@ pub fn run_segments(cfg: &Cfg, segments: &[usize], empties: bool) -> (Option<(St
             left -= took.min(left);
         }
     }
-    let obs = util::hash64(&[&e.obs_log]);
+    let obs = util::hash64(&[&e.canon[0], &e.canon[1], &e.canon[2]]);
     let n = e.delivered_count;
     (e.finish_fds(), obs, n, acts)
+}
+
+/// Digest-free companion of the alphabet graphs: every sequence of up to `max_len` pieces is
+/// turned into a concrete stream and run under greedy reads, one-byte reads and every single
+/// cut (with an empty read before each segment on odd cuts); nothing is de-duplicated, so state
+/// that the cfg-guarded digest does not see cannot hide. All oracles of the configuration
+/// (reference agreement, twin, deferred pops) apply to every run.
+pub fn stateless_sequences(cfg: &Cfg, max_len: u32, workers: usize) -> crate::par::Tally {
+    let n = cfg.pieces.len() as u64;
+    let mut total = 0u64;
+    for d in 1..=max_len {
+        total += n.pow(d);
+    }
+    let block = 16u64;
+    let cfg = cfg.clone();
+    crate::par::par_enum(
+        (total + block - 1) / block,
+        workers,
+        300,
+        move |blk, t| {
+            for idx in blk * block..((blk + 1) * block).min(total) {
+                let mut i = idx;
+                let mut d = 1;
+                while i >= n.pow(d) {
+                    i -= n.pow(d);
+                    d += 1;
+                }
+                let mut stream = vec![];
+                let mut names = vec![];
+                for _ in 0..d {
+                    let p = &cfg.pieces[(i % n) as usize];
+                    stream.extend_from_slice(&p.bytes);
+                    names.push(p.name.clone());
+                    i /= n;
+                }
+                let mut c = cfg.clone();
+                c.pieces = vec![];
+                c.stream = Some(stream.clone());
+                c.label = format!("{} / stateless {:?}", cfg.label, names);
+                let len = stream.len();
+                let mut scheds: Vec<(Vec<usize>, bool)> = vec![(vec![len], false), (vec![1; len], false)];
+                for cut in 1..len {
+                    scheds.push((vec![cut, len - cut], cut % 2 == 1));
+                }
+                let mut greedy_obs = None;
+                for (si, (segs, empties)) in scheds.iter().enumerate() {
+                    let (v, obs, _, acts) = run_segments(&c, segs, *empties && cfg.empty_reads);
+                    t.evals += 1;
+                    if d >= 2 {
+                        t.nontrivial += 1;
+                    }
+                    if let Some((sig, detail)) = v {
+                        t.violate(&sig, format!("[pieces {:?}, segments {:?}] {}", names, &segs[..segs.len().min(4)], detail), schedule_replay(&c, &acts));
+                        break;
+                    }
+                    // confluence without any reference: same observations as the unsplit run
+                    // (only meaningful when errors end the run, i.e. not in twin mode)
+                    if !cfg.continue_after_error && !cfg.robust_only {
+                        match greedy_obs {
+                            None if si == 0 => greedy_obs = Some(obs),
+                            Some(g) if g != obs => {
+                                t.violate("segmentation-dependent-delivery", format!("pieces {:?}: segments {:?} give a different observation sequence than the unsplit stream", names, &segs[..segs.len().min(4)]), schedule_replay(&c, &acts));
+                                break;
+                            }
+                            _ => {}
+                        }
+                    }
+                }
+                if idx == 4321 {
+                    t.sample(json!({"pieces": names, "stream": show(&stream), "schedules": scheds.len()}));
+                }
+            }
+        },
+        |blk| format!("stateless piece sequences block {}", blk),
+    )
+}
+
+pub fn record_stateless(part: &mut crate::util::Part, label: &str, t: &crate::par::Tally) {
+    part.add("stateless_runs", t.evals);
+    part.add("traces_validated_against_impl", t.evals);
+    part.add("transitions", t.evals);
+    part.push("stateless_companions", json!({"graph": label, "runs": t.evals, "distinct_outcome_classes": t.outcomes.len()}));
+    for v in &t.violations {
+        part.violations.push(v.clone());
+    }
+    for e in &t.machinery_errors {
+        part.machinery_errors.push(format!("{}: {}", label, e));
+    }
+    for smp in t.samples.iter().take(1) {
+        part.push("samples", json!({"stateless": smp}));
+    }
 }
